@@ -135,6 +135,46 @@ def extract(tree):
     refuse = _status_set(m.group(1), stat)
     if not re.search(r"janet_vm\.fiber != NULL && \(fiber->gc\.flags & JANET_FIBER_FLAG_ROOT\)", ccr):
         raise ExtractError("janet_check_can_resume: root test changed")
+    # the recursion guard: where it is tested relative to the refusals, and what it does to the refused fiber
+    gm = list(re.finditer(r"if\s*\(janet_vm\.stackn >= JANET_RECURSION_GUARD\)\s*\{\s*janet_fiber_set_status\(fiber, JANET_STATUS_ERROR\);\s*"
+                          r"\*out = janet_cstringv\(\"C stack recursed too deeply\"\);\s*return JANET_SIGNAL_ERROR;\s*\}", ccr))
+    if len(gm) != 1:
+        raise ExtractError("janet_check_can_resume: recursion guard block shape changed")
+    if gm[0].start() > m.end() and gm[0].start() > iroot:
+        guard_after = True
+    elif gm[0].end() < m.start() and gm[0].end() < iroot:
+        guard_after = False
+    else:
+        raise ExtractError("janet_check_can_resume: recursion guard sits between the root test and the status test")
+    mg = re.search(r"^#define\s+JANET_RECURSION_GUARD\s+(\d+)\s*$", jh, re.M)
+    if not mg:
+        raise ExtractError("janet.h: JANET_RECURSION_GUARD not found")
+    recursion_guard = int(mg.group(1))
+    # every write to janet_vm.stackn, by site (the counter discipline mirrored by Fiber/Guard.lean runEvs / contN)
+    ti = csrc.func_body(vm, "janet_try_init")
+    rs = csrc.func_body(vm, "janet_restore")
+    if not re.search(r"state->stackn = janet_vm\.stackn\+\+;", ti) or not re.search(r"janet_vm\.stackn = state->stackn;", rs):
+        raise ExtractError("janet_try_init / janet_restore: stackn save / restore shape changed")
+    jcall = csrc.func_body(vm, "janet_call")
+    if not re.search(r"if \(janet_vm\.stackn >= JANET_RECURSION_GUARD\)\s*janet_panic\(\"C stack recursed too deeply\"\);", jcall) or \
+       not re.search(r"int32_t oldn = janet_vm\.stackn\+\+;.*?JanetSignal signal = run_vm\(janet_vm\.fiber, janet_wrap_nil\(\)\);.*?janet_vm\.stackn = oldn;", jcall, re.S) or \
+       not re.search(r"janet_vm\.stackn\+\+;\s*vm_do_trace\(fun, argc, argv\);\s*janet_vm\.stackn--;", jcall):
+        raise ExtractError("janet_call: recursion guard / stackn bracket shape changed")
+    nwrites = len(re.findall(r"janet_vm\.stackn\s*(?:\+\+|--|=(?!=))", vm))
+    if nwrites != 9:
+        raise ExtractError("vm.c: %d writes to janet_vm.stackn, expected 9 (try_init, restore, child branch ++/--, janet_call ++/= and trace ++/--, janet_init)" % nwrites)
+    import os as _os
+    for fn in sorted(_os.listdir(_os.path.join(tree, "src/core"))):
+        if fn.endswith(".c") and fn != "vm.c":
+            other = csrc.strip_comments(csrc.read(tree, "src/core/" + fn))
+            # other files may only bracket a callback with a balanced `stackn += n; … stackn -= n;` (compile.c, peg.c charge the
+            # depth they used while a macro / cmt function runs): same discipline as janet_call's `oldn = stackn++ … stackn = oldn`
+            if re.search(r"janet_vm\.stackn\s*(?:\+\+|--|=(?!=))", other):
+                raise ExtractError("%s assigns janet_vm.stackn (only vm.c is modelled)" % fn)
+            plus = sorted(re.findall(r"janet_vm\.stackn\s*\+=\s*(\w+)\s*;", other))
+            minus = sorted(re.findall(r"janet_vm\.stackn\s*-=\s*(\w+)\s*;", other))
+            if plus != minus:
+                raise ExtractError("%s: unbalanced janet_vm.stackn += / -= (%s / %s)" % (fn, plus, minus))
     # the mask test at its four sites
     mask_test = r"if\s*\(sig != JANET_SIGNAL_OK && !\(child->flags & \(1 << sig\)\)\)"
     sites = {}
@@ -174,9 +214,9 @@ def extract(tree):
     if not m:
         raise ExtractError("janet_continue_no_check: JOP_NEXT fix-up shape changed")
     next_nil_vm = sorted(sig[x] for x in re.findall(r"JANET_SIGNAL_\w+", m.group(1)))
-    if re.search(r"uint32_t instr = [^;]*;\s*janet_fiber_set_status\(fiber, JANET_STATUS_ALIVE\);\s*janet_vm\.stackn\+\+;\s*JanetSignal sig = janet_continue\(child, in, &in\);", cnc):
+    if re.search(r"uint32_t instr = [^;]*;\s*janet_fiber_set_status\(fiber, JANET_STATUS_ALIVE\);\s*janet_vm\.stackn\+\+;\s*JanetSignal sig = janet_continue\(child, in, &in\);\s*janet_vm\.stackn--;", cnc):
         chain_alive = True
-    elif re.search(r"uint32_t instr = [^;]*;\s*janet_vm\.stackn\+\+;\s*JanetSignal sig = janet_continue\(child, in, &in\);", cnc):
+    elif re.search(r"uint32_t instr = [^;]*;\s*janet_vm\.stackn\+\+;\s*JanetSignal sig = janet_continue\(child, in, &in\);\s*janet_vm\.stackn--;", cnc):
         chain_alive = False
     else:
         raise ExtractError("janet_continue_no_check: child branch shape changed")
@@ -245,7 +285,8 @@ def extract(tree):
     user_max, user_base = int(m.group(1)), sig[m.group(2)]
     return dict(sig=sig, stat=stat, signames=signames, statnames=statnames, env=env, usern=usern, default_mask=default_mask,
                 letters=letters, envmodes=envmodes, refuse=refuse, cancel_sig=cancel_sig, prop_max=prop_max, next_nil=next_nil,
-                next_skip=next_skip, user_max=user_max, user_base=user_base, walk_guarded=walk_guarded, stale_cleared=stale_cleared, chain_alive=chain_alive, prop_refuses_dead=prop_refuses_dead, first_uses_arity=first_uses_arity, new_max_min_arity=new_max_min_arity)
+                next_skip=next_skip, user_max=user_max, user_base=user_base, walk_guarded=walk_guarded, stale_cleared=stale_cleared, chain_alive=chain_alive, prop_refuses_dead=prop_refuses_dead, first_uses_arity=first_uses_arity, new_max_min_arity=new_max_min_arity,
+                guard_after=guard_after, recursion_guard=recursion_guard)
 
 
 def render(tree):
@@ -299,5 +340,10 @@ def render(tree):
     o.append("abbrev firstValueUsesArity : Bool := %s" % ("true" if x["first_uses_arity"] else "false"))
     o.append("/-- fiber/new refuses functions with more required parameters than this -/")
     o.append("abbrev newMaxMinArity : Nat := %d" % x["new_max_min_arity"])
+    o.append("/-- JANET_RECURSION_GUARD (janet.h) -/")
+    o.append("abbrev recursionGuard : Nat := %d" % x["recursion_guard"])
+    o.append("/-- janet_check_can_resume tests the recursion guard AFTER the root and status refusals (true), so that the guard's\n"
+             "    `janet_fiber_set_status(fiber, JANET_STATUS_ERROR)` only ever hits a fiber that could otherwise be resumed -/")
+    o.append("abbrev guardAfterRefusals : Bool := %s" % ("true" if x["guard_after"] else "false"))
     o.append("\nend JanetModel.Gen.Fiber\n")
     return "\n".join(o)
